@@ -327,8 +327,8 @@ func toCells(in *lisp.LVal) ([]*lisp.LVal, error) {
 	}
 	switch in.Type {
 	case lisp.LArray:
-		if in.Cells[0].Len() > 1 {
-			return nil, errors.New("cannot index multi-dimensional array")
+		if in.Cells[0].Len() != 1 {
+			return nil, errors.New("cannot index zero- or multi-dimensional array")
 		}
 		cells := in.Cells[1].Cells
 		return cells, nil
